@@ -434,6 +434,9 @@ func (ev *Env) path(p *xast.Path, c Ctx) (Value, error) {
 	for i := range p.Steps {
 		s := &p.Steps[i]
 		if s.Fn != nil {
+			if cur == nil {
+				cur = NodeSet{} // an empty context set is still "a path step context"
+			}
 			v, err := ev.call(s.Fn, c, cur)
 			if err != nil {
 				return nil, err
